@@ -6,6 +6,7 @@ use crate::gen::progen::{gen_program, GenOpts};
 use crate::gen::syngen::{gen_tree, SynOpts};
 use crate::luaprint;
 use crate::luasyn::census::{census, Census};
+use crate::luasyn::lex::TokKind;
 use crate::luasyn::{self, Mode};
 use crate::props::c01::gen_name;
 use crate::tape::Tape;
@@ -169,7 +170,14 @@ fn run(ctx: &RunCtx) {
         if avoid_multi && g.contains("retain_lines") && has_multiline_instantiation(&source) {
             return CaseResult::Discard("avoided: known finding multiline-instantiation");
         }
-        if avoid_unicode && !g.contains("retain_lines") && !source.is_ascii() {
+        // retain_lines keeps original string tokens, but the format string that replaces an
+        // interpolated string is a new literal and goes through the same writer
+        let non_ascii_in_backticks = || {
+            crate::luasyn::lex::lex(&source, Mode::Luau)
+                .map(|l| l.tokens.iter().any(|t| matches!(t.kind, TokKind::InterpSimple | TokKind::InterpBegin | TokKind::InterpMid | TokKind::InterpEnd) && !t.text.is_ascii()))
+                .unwrap_or(true)
+        };
+        if avoid_unicode && !source.is_ascii() && (!g.contains("retain_lines") || non_ascii_in_backticks()) {
             return CaseResult::Discard("avoided: known finding unicode-escape-not-lua51");
         }
         match check_all(&source, &order, &g) {
